@@ -208,6 +208,14 @@ def install_source(lib):
                ("policy-ready", selection_ready(st.f["out_edge_selection"], oe.val.len)),
                ("inter-arrival-time-given", st.f["inter_arrival_time"].tag != V.T_NONE)]
         out += edges_assumptions(st, "out_edges")
+        # C17: the source's per-state totals add up to the time of the last state change (the clock starts with the first
+        # round); every write to a total outside update_state has to keep this
+        last = st.f["stats.last_state_change_time"]
+        tot = sum(st.f[TT + k].t for k in ("SETUP_STATE", "GENERATING_STATE", "BLOCKED_STATE"))
+        out += [("I-acc.states-sum-to-last-change", z3.Implies(z3.Not(last.isnone), tot == last.val.t), ("C17",)),
+                ("I-acc.clock-not-started-means-nothing-charged", z3.Implies(last.isnone, z3.And(tot == 0, st.now == 0)), ("C17",)),
+                ("I-acc.nonneg", z3.And(*[st.f[TT + k].t >= 0 for k in ("SETUP_STATE", "GENERATING_STATE", "BLOCKED_STATE")]), ("C17",)),
+                ("I-acc.last-change-in-the-past", z3.Implies(z3.Not(last.isnone), last.val.t <= st.now), ("C17",))]
         return out
 
     def back(ex, head_f, st):
@@ -227,7 +235,10 @@ def install_source(lib):
         allputs = st.ghost.get("puts", [])
         out.append(("generated-counter-incremented-once", dgen == 1))
         # C03: the item is pushed exactly once, or dropped and counted - never both, never neither
-        out.append(("item-pushed-once-or-discarded-and-counted", z3.And(puts + ddis == 1, puts >= 0, ddis >= 0)))
+        # (C20: a round that ends with its item neither handed over nor dropped lets a source with zero inter-arrival
+        #  time create items for ever in one instant: the hand-over is what makes a full out-edge stop the loop)
+        out.append(("item-pushed-once-or-discarded-and-counted", z3.And(puts + ddis == 1, puts >= 0, ddis >= 0),
+                    ("C03", "C09", "C20")))
         out.append(("nothing-else-pushed", z3.BoolVal(all(True for p in allputs)) if True else None))
         out.append(("only-the-new-item-is-pushed", z3.And(*[p[0] == it for p in allputs]) if allputs else z3.BoolVal(True)))
         # C09
@@ -244,13 +255,16 @@ def install_source(lib):
     beh = FnContract(
         "behaviour", [], is_generator=True, uses_inv=False, keeps_inv=False,
         entry_assume=lambda st, args: [("A-edges", cl) for nm, cl in edges_assumptions(st, "out_edges")] + [
-            ("state-known", z3.Or(*[st.f["state"].t == sc(x) for x in ("SETUP_STATE", "GENERATING_STATE", "BLOCKED_STATE")]))],
+            ("state-known", z3.Or(*[st.f["state"].t == sc(x) for x in ("SETUP_STATE", "GENERATING_STATE", "BLOCKED_STATE")])),
+            ("A-start: the node is created at time 0 with all totals at 0 and the accounting clock not started", z3.And(
+                st.now == 0, st.f["stats.last_state_change_time"].isnone,
+                *[st.f[TT + k].t == 0 for k in ("SETUP_STATE", "GENERATING_STATE", "BLOCKED_STATE")]))],
         excs=[ExcCase("AssertionError", lambda c: z3.BoolVal(True), "start-up-or-user-value-rejected", unchanged=False,
                       props=("C20",), may=True),
               ExcCase("TypeError", lambda c: z3.BoolVal(True), "user-value-not-a-number", unchanged=False, props=("C20",), may=True),
               ExcCase("IndexError", lambda c: z3.BoolVal(True), "user-index-out-of-range", unchanged=False, props=("C20", "C15"), may=True),
               ExcCase("ValueError", lambda c: z3.BoolVal(True), "start-up-rejected", unchanged=False, props=("C20",), may=True)],
-        props=("C03", "C09", "C10", "C15", "C18", "C20"))
+        props=("C03", "C09", "C10", "C15", "C17", "C18", "C20"))
     beh.has_normal_exit = False
     beh.no_frame = True
     beh.nshards = 8
